@@ -26,6 +26,8 @@ ADVERSARIAL_STRINGS = [
     # mixed
     " a\tb ", "\n lead", "trail\n", "a\n\nb", "a  b", "x\x00y", "x\x01y", "x\x85y", "x\uffffy", "caf\xe9 <b>\"q\"</b>",
     "\U0001F600&\xe9\n", "tab\tsep", "a\x0bb\x1fc", "{}", "{0}", "%s", "a.b", "a/b", "..", "\\", "a\\nb",
+    # text that looks like the framing of a report file (the JavaScript prefix of report.js, an XML prolog)
+    "var reporting_data = ", "x var reporting_data = {\"a\": 1}", "<?xml version='1.0'?>",
     # plain words
     "a", "abc", "hello world", "Test_1", "ABC",
 ]
